@@ -8,6 +8,6 @@ CONSTANTS
   MaxQ = 0
   Ops = {}
 INVARIANTS Refines
-PROPERTIES DesignAgrees
+PROPERTIES DesignAgrees OnceAgrees
 POSTCONDITION TraceAccepted
 CHECK_DEADLOCK FALSE
